@@ -6,8 +6,8 @@ from ..common import is_ok
 
 ID = "C04"
 LEVEL = "exploration"
-RULE = ("Hypothesis draws histories (<=30 calls) over 4 pids (two of them a suffix / an extension of "
-        "another) and 2 contents, so sharing one object is the norm: store_object with right and "
+RULE = ("Hypothesis draws histories (<=30 calls) over 4 pids (a suffix, an extension and a case variant of "
+        "one another) and 2 contents, so sharing one object is the norm: store_object with right and "
         "deliberately wrong checksum/size, tag_object, delete_object, delete_if_invalid_object with "
         "wrong expectations on referenced and unreferenced objects, metadata calls, reopen. Binding "
         "is tracked observationally (successful store/tag whose object was present; dropped at any "
@@ -18,7 +18,7 @@ RULE = ("Hypothesis draws histories (<=30 calls) over 4 pids (two of them a suff
         "distinct key = the whole sequence of (op, pid, content, outcome) of a history that contains a sharing event.")
 ASSUMPTIONS = ["single thread", "process-local: crashes and faults are C10/C13"]
 SHRINK_BUDGET = 30.0
-PIDS = ["doi:10.1/x", "10.1/x", "doi:10.1/x.2", "other"]
+PIDS = ["doi:10.1/x", "10.1/x", "doi:10.1/x.2", "DOI:10.1/X"]
 FORMATS = [None, "f"]
 
 
